@@ -173,6 +173,10 @@ def run_property(prop, tier="quick", repo="/repo", seed=0, update_baseline=False
         return 3
     # ---- classify obligations
     bounded_names = set(extra.pop("bounded_obligations", []))
+    accepted_now = extra.pop("accepted_shapes_pinned", None)
+    if accepted_now and update_baseline and not only and os.path.realpath(repo) == os.path.realpath("/repo"):
+        from . import ttlvunits
+        ttlvunits.write_pinned_acceptance(accepted_now)
     for o in outs:
         if o["bounded"]:
             for r in o["results"]:
